@@ -87,6 +87,10 @@ type SeedTreeMap map[string]SeedTreeMap
 type SeedTreeSlice []SeedTreeSlice
 type SeedPtrList []*SeedPtrList
 type SeedMapOfSlices map[string][]SeedMapOfSlices
+type SeedChain struct {
+	V    int        `struct:"v"`
+	Next *SeedChain `struct:",inline"` // a nil pointer inlines nothing
+}
 type SeedHasTrees struct {
 	T SeedTreeMap   `struct:"t"`
 	S SeedTreeSlice `struct:"s,omitempty"`
@@ -366,7 +370,7 @@ func seeds() []seed {
 		{"SeedNamedKeys", []interface{}{map[SeedKey]int{"a": 1}, map[SeedKey]seedEmbedded{"a": {1}}, map[SeedKey]*int{"n": nil}, map[SeedKey]*seedEmbedded{"p": {2}}, map[SeedKey][]string{"l": {"x"}},
 			map[SeedKey]map[SeedKey]bool{"o": {"i": true}}, map[SeedKey]interface{}{"i": 1}, SeedKeyed{M: map[SeedKey]seedEmbedded{"k": {3}}, P: map[SeedKey]*int{"z": nil}}, SeedKeyed{}, []map[SeedKey]seedEmbedded{{"e": {4}}}}, nil, nil},
 		{"SeedRecursiveContainers", []interface{}{SeedTreeMap{"a": {"b": {}}, "c": nil}, SeedTreeMap(nil), SeedTreeSlice{{}, {{}, nil}}, SeedTreeSlice(nil), SeedPtrList{&SeedPtrList{nil}, nil},
-			SeedMapOfSlices{"k": {{"i": nil}, nil}}, SeedHasTrees{T: SeedTreeMap{"x": nil}, S: SeedTreeSlice{{}}, N: 1}, SeedHasTrees{}, &SeedTreeMap{"p": {}}, []SeedTreeMap{{"e": nil}},
+			SeedMapOfSlices{"k": {{"i": nil}, nil}}, SeedHasTrees{T: SeedTreeMap{"x": nil}, S: SeedTreeSlice{{}}, N: 1}, SeedHasTrees{}, &SeedTreeMap{"p": {}}, []SeedTreeMap{{"e": nil}}, SeedChain{V: 1}, SeedChain{V: 1, Next: &SeedChain{V: 2}}, []SeedChain{{V: 3}},
 			map[string]SeedTreeSlice{"m": {{}}}, struct{ I interface{} }{SeedTreeMap{"in": {}}}}, nil, nil},
 		{"SeedNode", []interface{}{
 			SeedNode{Name: "a", W: 1, Kids: map[string]SeedNode{"b": {Name: "b", W: 2, Kids: map[string]SeedNode{"c": {Name: "c", W: 3, Kids: map[string]SeedNode{"d": {Name: "d", W: 4}}}}}}},
